@@ -334,3 +334,7 @@ impl<'a> LatticeBuilder<'a> {
         Ok(other)
     }
 }
+
+// verification hook: harness text lives outside the repository (see MANIFEST.hooks)
+#[cfg(any(kani, sudachi_verif))]
+include!(concat!(env!("SUDACHI_VERIF_DIR"), "/analysis__stateful_tokenizer.rs"));
